@@ -124,7 +124,7 @@ __CPROVER_requires(ITEM_RW(item) && HEAP_BLOCK(item) && item->refcount == 1 && D
 __CPROVER_requires(APPENDED_AS_EXPECTED(item))
 __CPROVER_assigns(ALLOC_GHOSTS, g_b, g_d, ctx->creation_failed, ctx->syntax_error, ctx->root, *STK(ctx))
 __CPROVER_ensures(g_b.append_calls == OLD(g_b.append_calls) + 1 && g_b.appended == item &&
-                  STK(ctx)->size <= OLD(STK(ctx)->size));
+                  STK(ctx)->size <= OLD(STK(ctx)->size) && g_free_calls >= OLD(g_free_calls));
 
 /* add_chunk as called by the string callbacks: the general contract's facts that the callback's harness needs,
  * plus the expectation check on the chunk at the call site */
